@@ -88,7 +88,7 @@ def run_corpus(tag="memo"):
     # ... and the memo table keeps working however much was parsed before: the marginal cost of a nested
     # declaration at the end of a long file is its stand-alone cost
     nest = "let z = " + "(" * 7 + "num" + ")" * 7 + ";\n"
-    prefix = "".join("let v%d = { 'a num, 'b [str] };\n" % i for i in range(700))
+    prefix = "".join("let v%d = { 'a num, 'b [str] };\n" % i for i in range(8000))      # far more results than any fixed-size table holds
     rr = {}
     for nm, text in (("nest", nest), ("prefix", prefix), ("prefix+nest", prefix + nest)):
         rc, out, t = run([drv], stdin=text, timeout=180, mem_gb=6, extra_env={"PARSEDRV_MEMO_ONLY": "1"})
@@ -129,39 +129,10 @@ def run_corpus(tag="memo"):
     return mism, rdir, detail
 
 
-def check():
-    o = Outcome("C12")
-    E = mirlib.enums()
-    try:
-        MM = mirlib.module("oal-model")
-        MS = mirlib.module("oal-syntax")
-        f_memo = MM.one(r"^(grammar::)?memoize$")
-        f_look = MM.one(r"grammar::<impl[^>]*>::lookup$")
-        f_cache = MM.one(r"grammar::<impl[^>]*>::cache$")
-        f_wo = MM.one(r"grammar::<impl[^>]*>::without_cache$")
-        f_new = MM.sel("grammar", "new", ret=r"grammar::Context<")
-    except Exception as ex:
-        o.inconc("MIR: %s" % str(ex)[-300:])
-        return o.finish()
-    o.functions += [mirlib.func_ref(f, "oal-model") for f in (f_memo, f_look, f_cache, f_wo, f_new)]
-    o.assumptions = ["HashMap::get/insert are uninterpreted; a production function is a deterministic function of (context, cursor)",
-                     "the replay compares Debug dumps of the finalized trees and error counts"]
-    o.bounds = {"control": "all paths of memoize/lookup/cache/without_cache, values unbounded"}
-    o.outside = ["that production functions are pure up to the arena (node indices of a discarded attempt are reused)", "the linear-work clause (only sampled by the replay oracle)",
-                 "which productions are memoised"]
-    L = mirlib.Lemma(o)
-    S = L.smt
-    bad = []
-
-    def on_sat(name, model):
-        bad.append(name)
-
-    def structural(name, ok, why=None):
-        o.query(name, "mirsym/structural", "unsat" if ok else "violated", 0)
-        if not ok and (why or name) not in bad:
-            bad.append(why or name)
-        return ok
-
+def memo_lemmas(o, L, S, E, MM, MS, fs, structural, on_sat, bad):
+    """The memo protocol, step by step (shared with C04: a parser that stops remembering is a parser that hangs on
+    nested input)."""
+    f_memo, f_look, f_cache, f_wo, f_new = fs
     # field order of Context from its constructor
     import mirparse as mp
     names = None
@@ -172,7 +143,7 @@ def check():
                 names = list(st[2][4])
     if not names:
         o.inconc("cannot read Context's field order")
-        return o.finish()
+        return
     i_nc, i_cache = names.index("no_cache"), names.index("cache")
 
     # memoize
@@ -268,6 +239,43 @@ def check():
     tags = sorted(set(tags))
     o.extra["memoised_productions"] = tags
     structural("parser: every memoize call site uses a tag of its own", len({t[1] for t in tags}) == len({t[0] for t in tags}) and len(tags) >= 2)
+
+
+
+def check():
+    o = Outcome("C12")
+    E = mirlib.enums()
+    try:
+        MM = mirlib.module("oal-model")
+        MS = mirlib.module("oal-syntax")
+        f_memo = MM.one(r"^(grammar::)?memoize$")
+        f_look = MM.one(r"grammar::<impl[^>]*>::lookup$")
+        f_cache = MM.one(r"grammar::<impl[^>]*>::cache$")
+        f_wo = MM.one(r"grammar::<impl[^>]*>::without_cache$")
+        f_new = MM.sel("grammar", "new", ret=r"grammar::Context<")
+    except Exception as ex:
+        o.inconc("MIR: %s" % str(ex)[-300:])
+        return o.finish()
+    o.functions += [mirlib.func_ref(f, "oal-model") for f in (f_memo, f_look, f_cache, f_wo, f_new)]
+    o.assumptions = ["HashMap::get/insert are uninterpreted; a production function is a deterministic function of (context, cursor)",
+                     "the replay compares Debug dumps of the finalized trees and error counts"]
+    o.bounds = {"control": "all paths of memoize/lookup/cache/without_cache, values unbounded"}
+    o.outside = ["that production functions are pure up to the arena (node indices of a discarded attempt are reused)", "the linear-work clause (only sampled by the replay oracle)",
+                 "which productions are memoised"]
+    L = mirlib.Lemma(o)
+    S = L.smt
+    bad = []
+
+    def on_sat(name, model):
+        bad.append(name)
+
+    def structural(name, ok, why=None):
+        o.query(name, "mirsym/structural", "unsat" if ok else "violated", 0)
+        if not ok and (why or name) not in bad:
+            bad.append(why or name)
+        return ok
+
+    memo_lemmas(o, L, S, E, MM, MS, (f_memo, f_look, f_cache, f_wo, f_new), structural, on_sat, bad)
 
     o.samples = [{"query": q["name"], "verdict": q["verdict"]} for q in o.queries[:14]]
     mism, rdir, detail = run_corpus()
